@@ -102,6 +102,17 @@ def mechanism_record(obj, protocol):
     """emission tree (recursive reference) + real effect sequence (lazy pickler) for one object"""
     chunks = _Chunks()
     rec = {"err": "", "tree": [], "lazy": [], "protocol": protocol}
+    from edgegraph.output import nrpickler
+    need = ("realwrite", "realmemoize", "realsave", "lazywrites")
+    cls = getattr(nrpickler, "_NonrecursivePickler", None)
+    probe = None
+    try:
+        probe = cls(io.BytesIO(), protocol=protocol) if cls is not None else None
+    except Exception:
+        probe = None
+    if probe is None or not all(hasattr(probe, n) for n in need):
+        rec["skip"] = "the pickler's private structure is not the one the tracer knows (binding (b) not applicable)"
+        return rec
     try:
         f1 = io.BytesIO()
         rt = RecTracer(f1, chunks, protocol=protocol)
